@@ -15,7 +15,9 @@ using d::cmplx_t;
 // ------------------------------------------------------------------------------------------- awgn calibration
 static const double SNRS[7] = {-10, 0, 10, 20, 40, 60, 80};
 static const double POWS[3] = {1e-6, 1, 1e6};
-static const char* SIGLET[3] = {"tone", "constant-modulus", "broadband"};
+// zero-mean letters and letters with a DC component (the power of x includes its DC)
+static const int NSIG = 7;
+static const char* SIGLET[NSIG] = {"tone", "constant-modulus", "broadband", "unipolar-broadband", "tone-on-3x-offset", "constant", "carrier-leak"};
 
 // unit-power-ish signal letters (the exact power is measured in long double)
 static std::vector<cld> signal_letter(int letter, int N, bool cplx) {
@@ -30,12 +32,24 @@ static std::vector<cld> signal_letter(int letter, int N, bool cplx) {
                 x[(size_t)i] = cis(PI_L / 4 + q * PI_L / 2);
                 break;
             }
+            case 3: x[(size_t)i] = cld(0.5 + 0.5 * lcg_val(1906, (uint64_t)i), 0.5 + 0.5 * lcg_val(1907, (uint64_t)i)); break;
+            case 4: x[(size_t)i] = cis(ph) + cld(3, 0); break;
+            case 5: x[(size_t)i] = cld(0.6, -0.8); break;
+            case 6: {   // baseband with carrier leak: constant offset larger than the modulation
+                const int q = (int)std::floor((lcg_val(1908, (uint64_t)i) + 1) * 2) & 3;
+                x[(size_t)i] = cld(2, -1.5) + (ld)0.3 * cis(PI_L / 4 + q * PI_L / 2);
+                break;
+            }
             default: x[(size_t)i] = cld(lcg_gauss(1902, (uint64_t)i), lcg_gauss(1903, (uint64_t)i)) * (ld)0.7071067811865476; break;
             }
         } else {
             switch (letter) {
             case 0: x[(size_t)i] = cld(sqrtl(2.0L) * cosl(ph), 0); break;
             case 1: x[(size_t)i] = cld(lcg_val(1904, (uint64_t)i) < 0 ? -1.0 : 1.0, 0); break;
+            case 3: x[(size_t)i] = cld(0.5 + 0.5 * lcg_val(1909, (uint64_t)i), 0); break;
+            case 4: x[(size_t)i] = cld(cosl(ph) + 3, 0); break;
+            case 5: x[(size_t)i] = cld(1, 0); break;
+            case 6: x[(size_t)i] = cld(2 + (lcg_val(1910, (uint64_t)i) < 0 ? -0.3 : 0.3), 0); break;
             default: x[(size_t)i] = cld(lcg_gauss(1905, (uint64_t)i), 0); break;
             }
         }
@@ -63,14 +77,13 @@ static void run_awgn(Ctx& ctx, bool T) {
         if (!ctx.wants(chk)) continue;
         for (const Plan& pl : plans) {
             const int N = pl.N;
-            std::vector<std::vector<cld>> base(3);   // lazily built letters
-            std::vector<ld> basepow(3, 0);
-            for (int seed = 0; seed < pl.seeds; ++seed)
-                for (int letter = 0; letter < 3; ++letter) {
+            for (int letter = 0; letter < NSIG; ++letter) {
+                std::vector<cld> u;   // built lazily, one letter in memory at a time
+                for (int seed = 0; seed < pl.seeds; ++seed) {
                     if (!ctx.take(chk, P().kv("seed", seed).kv("N", N).kv("letter", SIGLET[letter]))) continue;
                     ctx.nontrivial();
-                    if (base[(size_t)letter].empty()) base[(size_t)letter] = signal_letter(letter, N, cplx != 0);
-                    const std::vector<cld>& u = base[(size_t)letter];
+                    ctx.note(letter >= 3 ? "awgn signal letter with DC component" : "awgn zero-mean signal letter");
+                    if (u.empty()) u = signal_letter(letter, N, cplx != 0);
                     std::map<std::string, AwgnFail> fails;   // first failure of each class within the block
                     for (double pw : POWS) {
                         // scaled signal in double, its exact power in long double
@@ -144,6 +157,7 @@ static void run_awgn(Ctx& ctx, bool T) {
                     }
                     for (auto& kv : fails) ctx.fail("awgn", kv.second.obs, kv.second.exp, kv.second.det);
                 }
+            }
         }
     }
 }
@@ -342,6 +356,100 @@ static std::vector<double> make_tones(int N, long long K, const std::vector<doub
     return x;
 }
 
+// one multi-tone configuration: f0 = (bin + off/100)/N, H harmonics with the level pattern `pat`, phase letter phl,
+// analysed at 5 amplitude scales by thd, sinad and snr
+static void measure_case(Ctx& ctx, const char* family, int N, int H, int bin, int oi, const std::vector<int>& pat, int phl) {
+    std::string lv;
+    for (int v : pat) lv += (char)('0' + v);
+    // a component exactly half-way between two bins of the analysis grid (power-of-two record: nfft = N);
+    // such cases form their own check so that their (known) failures cannot crowd out others
+    bool halfbin = false;
+    for (int h = 1; h <= H + 1; ++h) halfbin |= ((N & (N - 1)) == 0) && ((h * OFF100[oi]) % 100 == 50);
+    if (!ctx.take(halfbin ? (std::string(family) + ".halfbin").c_str() : family, P().kv("N", N).kv("H", H).kv("bin", bin).kv("off100", OFF100[oi]).kv("levels", lv).kv("phase", phl))) return;
+    ctx.nontrivial();
+    const long long K = 100LL * bin + OFF100[oi];
+    const double f0 = (double)K / (100.0 * N);
+    std::vector<double> amp = {1.0}, phi;
+    ld dist = 0;
+    for (int v : pat) {
+        amp.push_back(std::pow(10.0, LEVELS[v] / 20));
+        dist += powl(10.0L, (ld)LEVELS[v] / 10);
+    }
+    for (int h = 0; h <= H; ++h) phi.push_back(phl == 0 ? 0.0 : (phl == 1 ? 0.7 * (h + 1) * (h + 1) : 3.141592653589793 * lcg_val(1910, (uint64_t)h)));
+    const double thd_true = (double)(10 * log10l(dist));
+    const char* wsfx = halfbin ? " [half-bin cases]" : (std::strcmp(family, "measure.tones") ? " [low fundamental]" : ((N & 1) ? " [odd lengths]" : ""));
+    std::set<std::string> reported;   // one record per (site, kind) and case
+    auto failonce = [&](const char* site, const char* what, const std::string& obs, const std::string& exp, const P& det) {
+        if (reported.insert(std::string(site) + "/" + what).second) ctx.fail(site, obs, exp, det);
+    };
+    if (halfbin) ctx.note("a component exactly half-way between two analysis bins");
+    const std::vector<double> x1 = make_tones(N, K, amp, phi);
+    ctx.note(OFF100[oi] == 0 ? "fundamental on-bin" : "fundamental off-bin");
+    ctx.note((N & 1) ? "length odd" : ((N & (N - 1)) ? "length even, not a power of two" : "length power of two"));
+    double v_thd[5], v_sinad[5], v_snr_h[5], v_snr_all[5];
+    bool sized = true;
+    for (int sc = 0; sc < 5 && sized; ++sc) {
+        arr_real x(N);
+        for (int i = 0; i < N; ++i) x[i] = x1[(size_t)i] * SCALES[sc];
+        const d::ThdRes tr = d::thd(x, H + 1);
+        v_thd[sc] = tr.value;
+        v_sinad[sc] = d::sinad(x);
+        v_snr_h[sc] = d::snr(x, H);         // the last harmonic is left in the "noise": a deterministic ratio
+        v_snr_all[sc] = d::snr(x, H + 1);   // everything removed: what is left is the rounding floor of the scaled signal
+        if (tr.harmfreq.size() < H + 1 || tr.harmpow.size() < H + 1) {
+            ctx.fail("thd", fmt("harmfreq/harmpow sizes %d/%d", tr.harmfreq.size(), tr.harmpow.size()), fmt(">= %d", H + 1));
+            sized = false;
+            break;
+        }
+        if (sc == 0) {
+            const double e = std::fabs(tr.value - thd_true);
+            ctx.worst(std::string("thd error dB (limit 0.1)") + wsfx, std::isfinite(e) ? e : 1e300);
+            if (!(e <= 0.1)) failonce("thd", "value", fmt("thd=%.6f dB", tr.value), fmt("%.6f dB +- 0.1", thd_true), P().kv("halfbin", halfbin).kv("what", "value"));
+            for (int h = 0; h <= H; ++h) {
+                const double fe = std::fabs(tr.harmfreq[h] - (h + 1) * f0) * N;   // in bins of the record (1/N), the weaker reading of "bin"
+                ctx.worst(std::string("harmonic frequency error in bins 1/N (limit 0.1)") + wsfx, std::isfinite(fe) ? fe : 1e300);
+                if (!(fe <= 0.1)) {
+                    failonce("thd", "freq", fmt("harmfreq[%d]=%.9f", h, tr.harmfreq[h]), fmt("%.9f +- 0.1/N", (h + 1) * f0), P().kv("halfbin", halfbin).kv("what", "freq").kv("h", h));
+                    break;
+                }
+            }
+            // per-component levels: harmpow[k] - harmpow[0] is the level of harmonic k+1 relative to the fundamental
+            for (int h = 1; h <= H; ++h) {
+                const double le = std::fabs((tr.harmpow[h] - tr.harmpow[0]) - LEVELS[pat[(size_t)h - 1]]);
+                ctx.worst(std::string("harmonic level error dB (limit 0.1)") + wsfx, std::isfinite(le) ? le : 1e300);
+                if (!(le <= 0.1)) {
+                    failonce("thd", "level", fmt("harmpow[%d]-harmpow[0]=%.6f dB", h, tr.harmpow[h] - tr.harmpow[0]), fmt("%.1f dBc +- 0.1", LEVELS[pat[(size_t)h - 1]]), P().kv("halfbin", halfbin).kv("what", "level").kv("h", h));
+                    break;
+                }
+            }
+            const double es = std::fabs(v_sinad[0] - (-thd_true));
+            ctx.worst(std::string("sinad error dB (limit 1.5)") + wsfx, std::isfinite(es) ? es : 1e300);
+            if (!(es <= 1.5)) failonce("sinad", "value", fmt("sinad=%.6f dB", v_sinad[0]), fmt("%.6f dB +- 1.5", -thd_true), P().kv("halfbin", halfbin).kv("what", "value"));
+        }
+    }
+    if (!sized) return;
+    // invariance under positive scaling
+    for (int sc = 1; sc < 5; ++sc) {
+        const double e1 = std::fabs(v_thd[sc] - v_thd[0]), e2 = std::fabs(v_sinad[sc] - v_sinad[0]), e3 = std::fabs(v_snr_h[sc] - v_snr_h[0]);
+        ctx.worst(std::string("thd change under scaling dB (limit 1e-6)") + wsfx, std::isfinite(e1) ? e1 : 1e300);
+        ctx.worst(std::string("sinad change under scaling dB (limit 1e-6)") + wsfx, std::isfinite(e2) ? e2 : 1e300);
+        ctx.worst(std::string("snr (one harmonic left) change under scaling dB (limit 1e-6)") + wsfx, std::isfinite(e3) ? e3 : 1e300);
+        if (!(e1 <= 1e-6)) failonce("thd", "scale", fmt("thd %.9f vs %.9f at scale %g", v_thd[sc], v_thd[0], SCALES[sc]), "equal within 1e-6 dB", P().kv("halfbin", halfbin).kv("what", "scale").kv("scale", SCALES[sc]));
+        if (!(e2 <= 1e-6)) failonce("sinad", "scale", fmt("sinad %.9f vs %.9f at scale %g", v_sinad[sc], v_sinad[0], SCALES[sc]), "equal within 1e-6 dB", P().kv("halfbin", halfbin).kv("what", "scale").kv("scale", SCALES[sc]));
+        if (!(e3 <= 1e-6)) failonce("snr", "scale", fmt("snr %.9f vs %.9f at scale %g", v_snr_h[sc], v_snr_h[0], SCALES[sc]), "equal within 1e-6 dB", P().kv("halfbin", halfbin).kv("what", "scale").kv("scale", SCALES[sc]));
+        // noise-free signal with every component removed: the value is the rounding floor of the particular
+        // scaled samples; only power-of-two scalings (exact) are required to leave it unchanged
+        const double e4 = std::fabs(v_snr_all[sc] - v_snr_all[0]);
+        if (sc >= 3) {
+            ctx.worst(std::string("snr (all removed) change under power-of-two scaling dB (limit 1e-6)") + wsfx, std::isfinite(e4) ? e4 : 1e300);
+            if (!(e4 <= 1e-6)) failonce("snr", "scale2", fmt("snr %.9f vs %.9f at scale %g", v_snr_all[sc], v_snr_all[0], SCALES[sc]), "equal within 1e-6 dB", P().kv("halfbin", halfbin).kv("what", "scale2").kv("scale", SCALES[sc]));
+        } else {
+            ctx.worst(std::string("informational: snr (all removed, rounding floor) change under scaling by 1e+-4, dB") + wsfx, std::isfinite(e4) ? e4 : 1e300);
+        }
+    }
+    ctx.worst(std::string("informational: -snr of a noise-free signal (all components removed), dB") + wsfx, -v_snr_all[0]);
+}
+
 static void run_measure(Ctx& ctx, bool T) {
     struct LenPlan {
         int N;
@@ -401,89 +509,31 @@ static void run_measure(Ctx& ctx, bool T) {
                     for (size_t pt = 0; pt < pats.size(); ++pt)
                         for (int phl = 0; phl < 3; ++phl) {
                             if (lp.reduced && ((oi & 1) || phl == 1)) continue;
-                            std::string lv;
-                            for (int v : pats[pt]) lv += (char)('0' + v);
-                            // a component exactly half-way between two bins of the analysis grid (power-of-two record: nfft = N);
-                            // such cases form their own check so that their (known) failures cannot crowd out others
-                            bool halfbin = false;
-                            for (int h = 1; h <= H + 1; ++h) halfbin |= ((N & (N - 1)) == 0) && ((h * OFF100[oi]) % 100 == 50);
-                            if (!ctx.take(halfbin ? "measure.tones.halfbin" : "measure.tones", P().kv("N", N).kv("H", H).kv("bin", poss[pi]).kv("off100", OFF100[oi]).kv("levels", lv).kv("phase", phl))) continue;
-                            ctx.nontrivial();
-                            const long long K = 100LL * poss[pi] + OFF100[oi];
-                            const double f0 = (double)K / (100.0 * N);
-                            std::vector<double> amp = {1.0}, phi;
-                            ld dist = 0;
-                            for (int v : pats[pt]) {
-                                amp.push_back(std::pow(10.0, LEVELS[v] / 20));
-                                dist += powl(10.0L, (ld)LEVELS[v] / 10);
-                            }
-                            for (int h = 0; h <= H; ++h) phi.push_back(phl == 0 ? 0.0 : (phl == 1 ? 0.7 * (h + 1) * (h + 1) : 3.141592653589793 * lcg_val(1910, (uint64_t)h)));
-                            const double thd_true = (double)(10 * log10l(dist));
-                            const char* wsfx = halfbin ? " [half-bin cases]" : ((N & 1) ? " [odd lengths]" : "");
-                            std::set<std::string> reported;   // one record per (site, kind) and case
-                            auto failonce = [&](const char* site, const char* what, const std::string& obs, const std::string& exp, const P& det) {
-                                if (reported.insert(std::string(site) + "/" + what).second) ctx.fail(site, obs, exp, det);
-                            };
-                            if (halfbin) ctx.note("a component exactly half-way between two analysis bins");
-                            const std::vector<double> x1 = make_tones(N, K, amp, phi);
-                            ctx.note(OFF100[oi] == 0 ? "fundamental on-bin" : "fundamental off-bin");
-                            ctx.note((N & 1) ? "length odd" : ((N & (N - 1)) ? "length even, not a power of two" : "length power of two"));
-                            double v_thd[5], v_sinad[5], v_snr_h[5], v_snr_all[5];
-                            bool sized = true;
-                            for (int sc = 0; sc < 5 && sized; ++sc) {
-                                arr_real x(N);
-                                for (int i = 0; i < N; ++i) x[i] = x1[(size_t)i] * SCALES[sc];
-                                const d::ThdRes tr = d::thd(x, H + 1);
-                                v_thd[sc] = tr.value;
-                                v_sinad[sc] = d::sinad(x);
-                                v_snr_h[sc] = d::snr(x, H);         // the last harmonic is left in the "noise": a deterministic ratio
-                                v_snr_all[sc] = d::snr(x, H + 1);   // everything removed: what is left is the rounding floor of the scaled signal
-                                if (tr.harmfreq.size() < H + 1 || tr.harmpow.size() < H + 1) {
-                                    ctx.fail("thd", fmt("harmfreq/harmpow sizes %d/%d", tr.harmfreq.size(), tr.harmpow.size()), fmt(">= %d", H + 1));
-                                    sized = false;
-                                    break;
-                                }
-                                if (sc == 0) {
-                                    const double e = std::fabs(tr.value - thd_true);
-                                    ctx.worst(std::string("thd error dB (limit 0.1)") + wsfx, std::isfinite(e) ? e : 1e300);
-                                    if (!(e <= 0.1)) failonce("thd", "value", fmt("thd=%.6f dB", tr.value), fmt("%.6f dB +- 0.1", thd_true), P().kv("halfbin", halfbin).kv("what", "value"));
-                                    for (int h = 0; h <= H; ++h) {
-                                        const double fe = std::fabs(tr.harmfreq[h] - (h + 1) * f0) * N;   // in bins of the record (1/N), the weaker reading of "bin"
-                                        ctx.worst(std::string("harmonic frequency error in bins 1/N (limit 0.1)") + wsfx, std::isfinite(fe) ? fe : 1e300);
-                                        if (!(fe <= 0.1)) {
-                                            failonce("thd", "freq", fmt("harmfreq[%d]=%.9f", h, tr.harmfreq[h]), fmt("%.9f +- 0.1/N", (h + 1) * f0), P().kv("halfbin", halfbin).kv("what", "freq").kv("h", h));
-                                            break;
-                                        }
-                                    }
-                                    const double es = std::fabs(v_sinad[0] - (-thd_true));
-                                    ctx.worst(std::string("sinad error dB (limit 1.5)") + wsfx, std::isfinite(es) ? es : 1e300);
-                                    if (!(es <= 1.5)) failonce("sinad", "value", fmt("sinad=%.6f dB", v_sinad[0]), fmt("%.6f dB +- 1.5", -thd_true), P().kv("halfbin", halfbin).kv("what", "value"));
-                                }
-                            }
-                            if (!sized) continue;
-                            // invariance under positive scaling
-                            for (int sc = 1; sc < 5; ++sc) {
-                                const double e1 = std::fabs(v_thd[sc] - v_thd[0]), e2 = std::fabs(v_sinad[sc] - v_sinad[0]), e3 = std::fabs(v_snr_h[sc] - v_snr_h[0]);
-                                ctx.worst(std::string("thd change under scaling dB (limit 1e-6)") + wsfx, std::isfinite(e1) ? e1 : 1e300);
-                                ctx.worst(std::string("sinad change under scaling dB (limit 1e-6)") + wsfx, std::isfinite(e2) ? e2 : 1e300);
-                                ctx.worst(std::string("snr (one harmonic left) change under scaling dB (limit 1e-6)") + wsfx, std::isfinite(e3) ? e3 : 1e300);
-                                if (!(e1 <= 1e-6)) failonce("thd", "scale", fmt("thd %.9f vs %.9f at scale %g", v_thd[sc], v_thd[0], SCALES[sc]), "equal within 1e-6 dB", P().kv("halfbin", halfbin).kv("what", "scale").kv("scale", SCALES[sc]));
-                                if (!(e2 <= 1e-6)) failonce("sinad", "scale", fmt("sinad %.9f vs %.9f at scale %g", v_sinad[sc], v_sinad[0], SCALES[sc]), "equal within 1e-6 dB", P().kv("halfbin", halfbin).kv("what", "scale").kv("scale", SCALES[sc]));
-                                if (!(e3 <= 1e-6)) failonce("snr", "scale", fmt("snr %.9f vs %.9f at scale %g", v_snr_h[sc], v_snr_h[0], SCALES[sc]), "equal within 1e-6 dB", P().kv("halfbin", halfbin).kv("what", "scale").kv("scale", SCALES[sc]));
-                                // noise-free signal with every component removed: the value is the rounding floor of the particular
-                                // scaled samples; only power-of-two scalings (exact) are required to leave it unchanged
-                                const double e4 = std::fabs(v_snr_all[sc] - v_snr_all[0]);
-                                if (sc >= 3) {
-                                    ctx.worst(std::string("snr (all removed) change under power-of-two scaling dB (limit 1e-6)") + wsfx, std::isfinite(e4) ? e4 : 1e300);
-                                    if (!(e4 <= 1e-6)) failonce("snr", "scale2", fmt("snr %.9f vs %.9f at scale %g", v_snr_all[sc], v_snr_all[0], SCALES[sc]), "equal within 1e-6 dB", P().kv("halfbin", halfbin).kv("what", "scale2").kv("scale", SCALES[sc]));
-                                } else {
-                                    ctx.worst(std::string("informational: snr (all removed, rounding floor) change under scaling by 1e+-4, dB") + wsfx, std::isfinite(e4) ? e4 : 1e300);
-                                }
-                            }
-                            ctx.worst(std::string("informational: -snr of a noise-free signal (all components removed), dB") + wsfx, -v_snr_all[0]);
+                            measure_case(ctx, "measure.tones", N, H, poss[pi], oi, pats[pt], phl);
                         }
         }
     }
+}
+
+// long records with a LOW fundamental: harmonics only 110..200 bins apart (still >= 100 as the statement requires) and
+// non-monotone harmonic levels, so that a component search that looks too far around the nominal bin locks onto a
+// stronger neighbour (frequencies off by hundreds of bins, per-harmonic levels swapped while the thd sum stays right)
+static void run_measure_lowfund(Ctx& ctx, bool T) {
+    if (!ctx.wants("measure.lowfund") && !ctx.wants("measure.lowfund.halfbin")) return;
+    const std::vector<std::vector<int>> pats_q = {{3, 0, 2, 1}, {2, 3, 0}};                        // {-40,-10,-30,-20}, {-30,-40,-10} dBc
+    const std::vector<std::vector<int>> pats_t = {{3, 0, 2, 1}, {2, 3, 0}, {3, 0}, {1, 3, 2, 0, 3}, {3, 2, 1, 0}};
+    const std::vector<int> lens = T ? std::vector<int>{1 << 14, 1 << 15, 1 << 16, 1 << 17, 40000} : std::vector<int>{1 << 15, 1 << 17};
+    const std::vector<int> bins = T ? std::vector<int>{110, 130, 150, 170, 200} : std::vector<int>{110, 150, 200};
+    for (int N : lens)
+        for (int bin : bins)
+            for (int oi = 0; oi < 5; ++oi) {
+                if (!T && oi != 0 && oi != 2) continue;
+                for (const auto& pat : (T ? pats_t : pats_q))
+                    for (int phl = 0; phl < 3; ++phl) {
+                        if (!T && phl != 2) continue;
+                        measure_case(ctx, "measure.lowfund", N, (int)pat.size(), bin, oi, pat, phl);
+                    }
+            }
 }
 
 int main(int argc, char** argv) {
@@ -492,6 +542,7 @@ int main(int argc, char** argv) {
     const bool T = ctx.thorough();
     run_repro(ctx, T);
     run_measure(ctx, T);
+    run_measure_lowfund(ctx, T);
     run_awgn(ctx, T);
     return ctx.finish();
 }
